@@ -9,7 +9,9 @@ coercion -> resolvers:
                    the schema, multi-operation, block strings, every escape, non-ASCII, CR / CRLF / LF
                    line ends, BOM, comments), every single-character substitution from a 12-character set
                    at every offset, and (thorough) every single-character deletion / insertion
-  payload faults   variable payloads from C07's value alphabet (wrong kinds included), payload shapes
+  payload faults   variable payloads from C07's value alphabet (wrong kinds included), payload shapes,
+                   values with exactly one / two / three independent invalid parts (input-object fields,
+                   list items, nested), several invalid variables at once
   selection faults operation name none / right / wrong / empty on anonymous, single and multi-op documents
   resolver faults  at every executed field of 7 documents: ResolverError with / without extensions (plain
                    dict with nested values, MappingProxyType, ChainMap, OrderedDict, custom Mapping, empty
@@ -84,9 +86,10 @@ type Query {
   items: [Int!]!
   nitems: [Int]
   echo(x: Int, s: String, in: In): String
+  sink(f: Float, id: ID, e: E, l: [Int!], li: [In!], ll: [[Int!]]): String
 }
 type Obj { a: Int, nn: Int!, s: String, child: Obj, items: [Int!]!, nitems: [Int] }
-input In { a: Int = 1, b: String! }
+input In { a: Int = 1, b: String!, c: [Int!], sub: In }
 enum E { A B }
 type Mutation { m(x: Int): Int, n: Int! }
 type Subscription { tick: Int }
@@ -221,7 +224,7 @@ def _behave(ctx, info, args):
     log.append([path, ftype, "ok", None])
     if "Obj" in ftype:
         return {}
-    if name == "echo":
+    if name in ("echo", "sink"):
         return json.dumps(args, sort_keys=True, default=repr)
     if name == "m":
         return args.get("x", 0)
@@ -533,6 +536,23 @@ def check_result(text, stage, res, log, plan):
         if log:
             out.append(("resolver-ran", repr(log)[:200]))
     elif stage in ("operation", "variables"):
+        if stage == "variables":
+            # every variable error is located at the definition of its variable in the submitted text
+            for err in errors:
+                if not isinstance(err, dict):
+                    continue
+                locs = err.get("locations")
+                if not isinstance(locs, list) or not locs:
+                    out.append(("variable-error-without-location", repr(err)[:300]))
+                    continue
+                mm = re.search(r'Variable "\$([_A-Za-z][_0-9A-Za-z]*)"', str(err.get("message")))
+                # `$` and the name are two tokens: ignored characters / comments may stand between them
+                want = r"\$(?:[\s,\ufeff]|#[^\n\r]*)*" + (re.escape(mm.group(1)) + r"(?![_0-9A-Za-z])" if mm else "")
+                for loc in locs:
+                    if isinstance(loc, dict) and _is_int(loc.get("line")) and _is_int(loc.get("column")):
+                        off = _offset(text, loc["line"], loc["column"])
+                        if off is not None and not re.match(want, text[off:]):
+                            out.append(("variable-error-not-at-definition", "error %r points at %r" % (err, text[off : off + 12])))
         if not errors:
             out.append(("no-error-reported", repr(resp)[:200]))
         if log:
@@ -637,6 +657,19 @@ def selftest():
     ev = stub(extensions={"retry": False})
     assert probs("{ a }", "execute", GraphQLResult(data={"a": None}, errors=[ev]), [[["a"], "Int", "raised", ["extv", 2]]]) == []
     assert probs("{ a }", "execute", GraphQLResult(data={"a": None}, errors=[e]), [[["a"], "Int", "raised", ["extv", 0]]]) == ["extensions-not-passed-through"]
+    vtext = "query(\n  $x: Int!) { a }"
+    def verr(**kw):
+        o = Loc2('Variable "$x" got invalid value', 1, 1, None)
+        del o.d["path"], o.d["locations"]
+        o.d.update(kw)
+        return o
+
+    assert probs(vtext, "variables", GraphQLResult(data=None, errors=[verr(locations=[{"line": 2, "column": 3}])])) == []
+    assert probs(vtext, "variables", GraphQLResult(data=None, errors=[verr()])) == ["variable-error-without-location"]
+    assert probs("query($\n x: Int!) { a }", "variables", GraphQLResult(data=None, errors=[verr(locations=[{"line": 1, "column": 7}])])) == []
+    assert probs("query($ #c\n x: Int!) { a }", "variables", GraphQLResult(data=None, errors=[verr(locations=[{"line": 1, "column": 7}])])) == []
+    assert probs("query($y: Int!) { a }", "variables", GraphQLResult(data=None, errors=[verr(locations=[{"line": 1, "column": 7}])])) == ["variable-error-not-at-definition"]
+    assert probs(vtext, "variables", GraphQLResult(data=None, errors=[verr(locations=[{"line": 1, "column": 1}])])) == ["variable-error-not-at-definition"]
     nomsg = Loc2("m", 1, 3, ["a"])
     del nomsg.d["message"]
     assert probs("{ a }", "execute", GraphQLResult(data={"a": None}, errors=[nomsg]), [[["a"], "Int", "raised", None]]) == ["message-missing-or-not-str"]
@@ -771,9 +804,27 @@ VAR_DOCS = [
     ("query Q($x: Int = 3, $s: String) { echo(x: $x, s: $s) }", ["x", "s"]),
     ("query ($c: Boolean!) { a @skip(if: $c) s @include(if: $c) }", ["c"]),
     ("query($s: String!) { echo(in: {b: $s}) }", ["s"]),
-    ("query($i: In, $l: [Int!]) { echo(in: $i) nn }", ["i", "l"]),
-    ("query($f: Float, $id: ID, $e: E) { a }", ["f", "id", "e"]),
+    ("query($i: In, $l: [Int!]) { echo(in: $i) nn sink(l: $l) }", ["i", "l"]),
+    ("query($f: Float, $id: ID, $e: E) { a sink(f: $f, id: $id, e: $e) }", ["f", "id", "e"]),
+    ("query(\n  $li: [In!]\n  $ll: [[Int!]]\n) { nn\n  sink(li: $li, ll: $ll) }", ["li", "ll"]),
 ]
+
+# variable values with exactly two / three independent invalid parts (and one, for comparison)
+MULTI_INVALID = {
+    "i": [
+        {"a": "abc", "b": "x"},
+        {"a": "abc", "b": {"k": 1}},
+        {"a": "abc"},
+        {"a": "abc", "b": {"k": 1}, "c": [1, "zz"]},
+        {"b": "x", "c": [1, "zz"], "sub": {"a": True, "b": "y"}},
+        {"b": "x", "c": ["zz", None]},
+        {"b": "x", "zz": 1, "a": "abc"},
+        {"b": "x", "sub": {"a": "abc", "b": [1]}},
+    ],
+    "l": [[1, "abc"], [1, "abc", None], ["abc", None, {}], [[1], [2]]],
+    "li": [[{"b": "x"}, {"a": "abc", "b": "y"}], [{"a": "abc", "b": "x"}, {"b": {}}], [{"b": 1.5}, None, {"a": "abc", "b": {"k": 1}}], [{"b": "x", "c": ["zz", "yy"]}]],
+    "ll": [[[1, "abc"]], [[1, "abc"], ["zz"]], [["abc", None], [None]]],
+}
 
 OPNAME_DOCS = [
     "query A { a }\nquery B { s }\nmutation M { m(x: 1) n }",
@@ -814,8 +865,11 @@ def cases(tier):
         for shape in ("none", "empty", "extra"):
             yield {"k": "vars", "text": doc, "variables": None if shape == "none" else {} if shape == "empty" else {"unused": [1, {"k": None}]}}
         for name in names:
-            for v in _payload_values():
+            for v in _payload_values() + MULTI_INVALID.get(name, []):
                 yield {"k": "vars", "text": doc, "variables": {name: v}}
+        if len(names) > 1 and all(n in MULTI_INVALID for n in names):
+            # every variable invalid at once (each with several invalid parts)
+            yield {"k": "vars", "text": doc, "variables": {n: MULTI_INVALID[n][1] for n in names}}
     for doc in VALID_FOR_FAULTS:
         for k in range(MAX_PATHS):
             for fault in SINGLE_FAULTS:
